@@ -277,6 +277,9 @@ class Interp:
         self.flags = set()
         self.rel_stack = []        # enables whose real call is running
         self.nlife = Counter()
+        self.ndirect = Counter()
+        self.flip, self.emitted_now = None, 0
+        self.top_op, self.top_start = None, 0
         self.probe_snap = {}
         self.snap_at = {}
         self.life_ok = False       # on_remove scripts allowed right now
@@ -302,6 +305,23 @@ class Interp:
             if kind == 'probe' and rest[0] not in self.probe_snap:
                 # listeners registered when this event's delivery starts
                 self.probe_snap[rest[0]] = self.probe_targets(rest[0])
+        if (kind == 'life' and self.depth == 0 and not self.rel_stack
+                and self.enabled and self.flip is None
+                and self.top_op in ('add', 'remove')):
+            # a direct callback of add_component / remove_component leaves
+            # dispatching switched off: what the interrupted operation
+            # still owes is postponed, not delivered and not lost
+            key = f'dl:{label}:{rest[0]}'
+            n = self.ndirect[key]
+            self.ndirect[key] += 1
+            if self.sc.get('scripts', {}).get(f'{key}:{n}'):
+                self.flip = sum(1 for d, _ in self.log[self.top_start:]
+                                if d == 0)
+                self.probes['disabled_mid_operation'] += 1
+                self.faults['disable_from_direct_callback'] += 1
+                self.trace.add('flip', self.flip)
+                self.w.dispatch_enabled = False
+                self.enabled = False
         if (kind == 'life' and self.rel_stack
                 and self.depth == self.rel_stack[-1]['depth']):
             # delivered by a release: the callback may re-enter the world
@@ -429,8 +449,16 @@ class Interp:
         """Queue expected callbacks: now (enabled) or at the next enable."""
         if not entries:
             return
+        if self.flip is not None and self.emitted_now < self.flip:
+            k = self.flip - self.emitted_now
+            now, entries = list(entries[:k]), list(entries[k:])
+            groups.append((now, ordered))
+            self.emitted_now += len(now)
+            if not entries:
+                return
         if self.enabled:
             groups.append((list(entries), ordered))
+            self.emitted_now += len(entries)
         else:
             self.fifo.append(['grp', list(entries), ordered, origin])
             self.probes['postponed_callback'] += len(entries)
@@ -446,6 +474,9 @@ class Interp:
         start = len(self.log)
         self.stats['ops'] += 1
         self.trace.add('op', self.depth, *op)
+        if not nested and not self.depth:
+            self.top_op, self.top_start = name, start
+            self.flip, self.emitted_now = None, 0
         res = fn(op, start)
         if res == 'skip':
             self.stats['skipped'] += 1
@@ -2057,9 +2088,19 @@ def generate(prop, run_seed, tier='quick', tolerate=frozenset()):
                     body.append(nop)
             if not body:
                 continue
-            if rng.random() < .65:
+            r = rng.random()
+            if r < .6:
                 body = [['disable']] + body + [['enable']]
+            elif r < .7:
+                # the callback leaves dispatching switched off: whatever
+                # the interrupted operation still owes is postponed
+                body = [['disable']] + body if r < .65 else body + [['disable']]
             scripts[f'lc:c{i}:{k}'] = body
+    if crng.random() < {'C02': .3, 'C01': .05}.get(prop, 0):
+        for i in rng.sample(range(len(cfg['insts'])),
+                            min(len(cfg['insts']), rng.randint(1, 4))):
+            scripts[f'dl:c{i}:{rng.choice(["on_remove", "on_remove", "on_add"])}'
+                    f':{rng.choice([0, 0, 1, 2])}'] = [['disable']]
     # cascades: an on_remove callback asks for the deferred deletion of
     # another entity while the deletion pass of process() is running
     cascade_p = {'C05': .45, 'C02': .15, 'C01': .1}.get(prop, 0)
